@@ -13,7 +13,11 @@
 (*        the per-assertion meaning of the bundle's own conditions          *)
 (*  own   the borrowed and the owned summary of one accepted bundle, its    *)
 (*        Streamable bytes, hash and round trips                            *)
-(*  probe representation probes (no claim; read by the driver)              *)
+(*  probe the same condition VALUES in different allocator representations *)
+(*        (an empty hint atom as the nil node, as new_atom(""), as a        *)
+(*        zero-length substring of a heap atom, and as the result of the    *)
+(*        CLVM program (substr BIG 7 7)): the owned form must depend on the *)
+(*        values only                                                       *)
 EXTENDS LegacyLocks, TraceUtil
 
 PointOk(agg, c) ==
@@ -46,11 +50,14 @@ MatchOwn(e) ==
        /\ e.o.hash = SHA256(e.o.enc)
        /\ e.o.rt = "ok" /\ e.o.rtu = "ok"
 
+\* node pointers are read through the allocator, never compared: equal values give equal owned forms
+MatchProbe(e) == e.same_value => e.same_owned
+
 Match(e) == CASE e.k = "lat" -> MatchLat(e)
               [] e.k = "rnd" -> MatchRnd(e)
               [] e.k = "tree" -> MatchTree(e)
               [] e.k = "own" -> MatchOwn(e)
-              [] e.k = "probe" -> TRUE
+              [] e.k = "probe" -> MatchProbe(e)
               [] OTHER -> FALSE
 
 VARIABLE l
